@@ -228,3 +228,40 @@ def calculate_t_params(rep, ctx, rule="R11"):
     rep.add(rule, "calculate_t:field-size-term", ok,
             "the field size is a data operand of the returned count (the n/|F| term of the soundness bound)" if ok else
             "the field size only guards an exit of calculate_t; the returned count is computed without the n/|F| term", b.span)
+
+
+_run_c13 = run
+
+
+def run(rep, ctx, tier):
+    _run_c13(rep, ctx, tier)
+    from ..rules import argswap
+    argswap.attach(rep, ctx, ["linear_codes::"],
+                   "the code parameters (and with them the distance and the number of opened columns) are not the ones named")
+
+
+def sampled_indices_unfiltered(rep, ctx, rule="R5f"):
+    """every index the transcript samples is checked: in the verifier (and the prover) no element-dropping operation
+    (`filter`, `retain`, `take`, `skip`, ...) is applied to the list returned by the index sampler before the column loops."""
+    from ..rules import refusal as R5
+    f = ctx.facts
+    adt = T.SCHEMES["linear_codes"]["adt"]
+    for side, m in (("prover", "open"), ("verifier", "check")):
+        b = f.find1(m, self_adt=adt, trait=PC)
+        if b is None:
+            rep.add(rule, "linear_codes.%s:anchor" % m, False, "LinearCodePCS::%s not found (fail closed)" % m, None)
+            continue
+        g = Graph(f, f.closure([b.id], adt), [b.id], adt)
+        starts = [(bid, t["dst"]["l"]) for (bid, i, t) in calls_to(f, g, SAMPLER) if t.get("dst")]
+        if not starts:
+            rep.add(rule, "linear_codes.%s:sampler-site" % m, False, "no call of the index sampler in %s (fail closed)" % m, b.span)
+            continue
+        R5.check_unfiltered(rep, ctx, rule, "linear_codes.%s" % m, b, adt, None, "sampled column indices", starts=starts)
+
+
+_run_c13b = run
+
+
+def run(rep, ctx, tier):
+    _run_c13b(rep, ctx, tier)
+    sampled_indices_unfiltered(rep, ctx)
